@@ -11,7 +11,8 @@
      e_dpsidr, e_dpsidz  interpolators of the np.gradient grids            (efit.pyx:173-183; the grid
                          values themselves are modelled in C12_Gradient.v)
      e_fprof    Interpolator1DArray of the f profile                       (efit.pyx:123)
-     e_sqrt     libm sqrt;   e_cs  (cos, sin) of the angle atan2(y, x)      (mappers.pyx:331-335)
+     e_sqrt     libm sqrt, and libm hypot(x, y) seen as a function of x*x + y*y (the radius of the
+                axisymmetric mappers);   e_cs  (cos, sin) of the angle atan2(y, x)      (mappers.pyx:331-335)
      e_slerp    Vector3D.slerp (reached only for a mask value strictly between 0 and 1)
    Reals are Q; a float comparison [a == 0] is [Qeq_bool a 0]. *)
 Require Import Cherab.Common.Qx.
@@ -70,7 +71,8 @@ Section Model.
   Definition map2d (profile : Q -> Q) (outside : Q) (r z : Q) : Q :=
     blend outside (profile (psi_n r z)) (inside_lcfs r z).
 
-  (* efit.pyx:261 map3d = AxisymmetricMapper(map2d);  mappers.pyx:275 function2d(sqrt(x*x + y*y), z) *)
+  (* efit.pyx:261 map3d = AxisymmetricMapper(map2d);  mappers.pyx:275 function2d(hypot(x, y), z):
+     the radius is whatever e_sqrt returns for x*x + y*y *)
   Definition map3d (profile : Q -> Q) (outside : Q) (x y z : Q) : Q :=
     map2d profile outside (e_sqrt E (x * x + y * y)) z.
 
